@@ -1,4 +1,452 @@
+//! parseq random ... : random Par/Seq trees built from the real nodes, gated dispatches -> ndjson trace
+//! parseq replay ... : TLC behaviours (tree, finish order, run sets) of MCParSeq forced on the real tree
+//! parseq build  ... : TLC-enumerated trees with access declarations -> real construction (Par::with outcomes, reads/writes)
+//! parseq zoo    ... : trees that exist as compile-time types built with the real par!/seq! macros (gen/parseq_zoo.rs)
+//! (compiled only with the harness features `parallel` + `x-parseq`)
+
+#[cfg(not(all(feature = "x-parseq", feature = "parallel")))]
 fn main() {
-    eprintln!("stub");
-    std::process::exit(2);
+    eprintln!("parseq: the harness was built without the features parallel + x-parseq");
+    std::process::exit(2)
+}
+#[cfg(all(feature = "x-parseq", feature = "parallel"))]
+fn main() {
+    imp::main()
+}
+
+#[cfg(all(feature = "x-parseq", feature = "parallel"))]
+mod imp {
+    use std::{
+        fs::File,
+        io::{BufRead, BufReader, BufWriter, Write},
+        panic::{catch_unwind, AssertUnwindSafe},
+        sync::Arc,
+        time::Duration,
+    };
+
+    use rand::{rngs::StdRng, seq::SliceRandom, Rng, SeedableRng};
+    use rayon::{ThreadPool, ThreadPoolBuilder};
+    use serde_json::{json, Value};
+    use shred::{ParSeq, World};
+    use shredh::{
+        parseqx::{
+            assign_access, build_tree, dispatch_controlled, gen_shape, mk_leaf, node_acc, Caller, DynNode, GenCfg, NodeSpec,
+            PCtx, PLeaf, RunStats, Sched, Timing, TreeSpec,
+        },
+        record::write_events,
+        Args,
+    };
+
+    // compile-time trees: `pub const ZOO: &[(&str, fn(&mut dyn FnMut(usize) -> PLeaf) -> DynNode)]`
+    include!(concat!(env!("CARGO_MANIFEST_DIR"), "/gen/parseq_zoo.rs"));
+
+    pub fn main() {
+        shredh::quiet_panics();
+        let a = Args::from_env();
+        match a.cmd() {
+            "random" => random(&a),
+            "replay" => replay(&a),
+            "build" => build(&a),
+            "zoo" => zoo(&a),
+            _ => {
+                eprintln!("usage: parseq random|replay|build|zoo ...");
+                std::process::exit(2)
+            }
+        }
+    }
+
+    struct Pools {
+        by_size: Vec<ThreadPool>, // index = threads - 1
+        other: ThreadPool,
+    }
+    impl Pools {
+        fn new() -> Self {
+            Pools {
+                by_size: (1..=8).map(|n| ThreadPoolBuilder::new().num_threads(n).build().unwrap()).collect(),
+                other: ThreadPoolBuilder::new().num_threads(2).build().unwrap(),
+            }
+        }
+        fn get(&self, threads: usize) -> &ThreadPool {
+            &self.by_size[threads - 1]
+        }
+    }
+
+    fn timing(a: &Args) -> Timing {
+        Timing { stall: Duration::from_micros(a.num("stall-us", 30_000)), grace: Duration::from_micros(a.num("grace-us", 150)) }
+    }
+
+    fn replay_lines(path: &str) -> Vec<Value> {
+        let rd = BufReader::new(File::open(path).unwrap());
+        let mut out = Vec::new();
+        for line in rd.lines() {
+            let line = line.unwrap();
+            if !line.starts_with("<<\"REPLAY\"") {
+                continue;
+            }
+            let (Some(s), Some(e)) = (line.find("\"{"), line.rfind("}\"")) else { continue };
+            let inner: String = match serde_json::from_str(&line[s..e + 2]) {
+                Ok(x) => x,
+                Err(_) => continue,
+            };
+            out.push(serde_json::from_str(&inner).unwrap());
+        }
+        out
+    }
+
+    #[derive(Default)]
+    struct Totals {
+        trees: usize,
+        built: usize,
+        with_panics: usize,
+        dispatches: usize,
+        stalls: usize,
+        deviated: usize,
+        max_overlap: usize,
+        events: usize,
+        by_caller: std::collections::BTreeMap<String, usize>,
+        by_threads: std::collections::BTreeMap<usize, usize>,
+    }
+    impl Totals {
+        fn add(&mut self, st: &RunStats, caller: Caller, threads: usize) {
+            self.dispatches += 1;
+            self.stalls += st.stalls;
+            self.deviated += st.deviated as usize;
+            self.max_overlap = self.max_overlap.max(st.max_overlap);
+            *self.by_caller.entry(caller.name().into()).or_default() += 1;
+            *self.by_threads.entry(threads).or_default() += 1;
+        }
+        fn json(&self) -> Value {
+            json!({"trees":self.trees,"built":self.built,"with_panics":self.with_panics,"dispatches":self.dispatches,
+                   "stalls":self.stalls,"deviated":self.deviated,"max_overlap":self.max_overlap,"events":self.events,
+                   "by_caller":self.by_caller,"by_threads":self.by_threads})
+        }
+    }
+
+    /// setup(s) and dispatches of an already built tree; events are appended to `evs`.
+    #[allow(clippy::too_many_arguments)]
+    fn drive(
+        root: DynNode,
+        spec: &TreeSpec,
+        ctx: &Arc<PCtx>,
+        pools: &Pools,
+        threads: usize,
+        caller: Caller,
+        setups: usize,
+        scheds: Vec<Sched>,
+        tm: &Timing,
+        evs: &mut Vec<Value>,
+        tot: &mut Totals,
+    ) -> Vec<RunStats> {
+        let pool = pools.get(threads);
+        let mut world = World::empty();
+        let mut ps = ParSeq::new(root, pool);
+        for _ in 0..setups {
+            ctx.ev(json!({"ev":"setup_begin"}));
+            ps.setup(&mut world);
+            ctx.ev(json!({"ev":"setup_end"}));
+        }
+        if setups == 0 {
+            // resources must exist; insert them directly
+            for r in spec.resources() {
+                world.insert_by_id(shred::ResourceId::new_with_dynamic_id::<shredh::parseqx::PSlot>(r as u64), shredh::parseqx::PSlot(1000 + r));
+            }
+        }
+        let mut out = Vec::new();
+        for s in scheds {
+            let st = dispatch_controlled(&mut ps, &world, ctx, spec, pool, &pools.other, caller, s, tm);
+            tot.add(&st, caller, threads);
+            out.push(st);
+        }
+        evs.extend(ctx.take_log());
+        out
+    }
+
+    /// run-time construction from the real nodes + the `built` event
+    fn build_logged(spec: &TreeSpec, ctx: &Arc<PCtx>, evs: &mut Vec<Value>) -> Option<DynNode> {
+        let root = build_tree(spec, 1, ctx, evs, true);
+        evs.push(json!({"ev":"built","out": if root.is_some() {"ok"} else {"panic"}}));
+        root
+    }
+
+    fn pick_caller(rng: &mut StdRng) -> Caller {
+        *[Caller::Outside, Caller::Outside, Caller::Inside, Caller::Inside, Caller::Other].choose(rng).unwrap()
+    }
+
+    fn random(a: &Args) {
+        let out = a.get("out").expect("--out");
+        let seed: u64 = a.num("seed", 1);
+        let count: usize = a.num("count", 50);
+        let tm = timing(a);
+        let mut rng = StdRng::seed_from_u64(seed);
+        let pools = Pools::new();
+        let mut w = BufWriter::new(File::create(out).unwrap());
+        let mut tot = Totals::default();
+        let mut samples = Vec::new();
+        for run in 0..count {
+            let cfg = GenCfg {
+                max_depth: rng.gen_range(1..=a.num("depth", 5)),
+                max_fan: rng.gen_range(2..=a.num("fan", 6)),
+                max_leaves: rng.gen_range(1..=a.num("maxleaves", 24)),
+                n_res: rng.gen_range(1..=8),
+                p_conflict: a.num("pconflict", 0.25),
+            };
+            let mut spec = gen_shape(&mut rng, &cfg);
+            assign_access(&mut rng, &mut spec, &cfg);
+            let ctx = PCtx::new();
+            let mut evs = vec![json!({"ev":"reset","run":run + 1,"mode":"dyn","debug":cfg!(debug_assertions),"tree":spec})];
+            tot.trees += 1;
+            let root = build_logged(&spec, &ctx, &mut evs);
+            match root {
+                None => tot.with_panics += 1,
+                Some(root) => {
+                    tot.built += 1;
+                    let threads = rng.gen_range(1..=8);
+                    let caller = pick_caller(&mut rng);
+                    let setups = *[1usize, 1, 1, 2, 0].choose(&mut rng).unwrap();
+                    let k = rng.gen_range(1..=2);
+                    let mut r2 = StdRng::seed_from_u64(rng.gen());
+                    let mut r3 = StdRng::seed_from_u64(rng.gen());
+                    let free = rng.gen_bool(0.15);
+                    let mut scheds = Vec::new();
+                    scheds.push(if free { Sched::Free } else { Sched::Random(&mut r2) });
+                    if k == 2 {
+                        scheds.push(Sched::Random(&mut r3));
+                    }
+                    drive(root, &spec, &ctx, &pools, threads, caller, setups, scheds, &tm, &mut evs, &mut tot);
+                }
+            }
+            if samples.len() < 2 && spec.0.len() <= 12 {
+                samples.push(json!({"tree": spec, "events": evs.iter().skip(1).map(brief).collect::<Vec<_>>()}));
+            }
+            tot.events += evs.len();
+            write_events(&mut w, &evs);
+        }
+        w.flush().unwrap();
+        let mut j = tot.json();
+        j["samples"] = json!(samples);
+        println!("{}", j);
+    }
+
+    fn brief(e: &Value) -> Value {
+        let ev = e["ev"].as_str().unwrap_or("");
+        match ev {
+            "fetch" => json!(format!("F{}", e["s"])),
+            "finish" => json!(format!("E{}", e["s"])),
+            "setup" => json!(format!("S{}", e["s"])),
+            "with" => json!(format!("with({},{})={}", e["n"], e["i"], e["out"].as_str().unwrap_or(""))),
+            "acc" => json!(format!("acc{}", e["n"])),
+            "begin" => json!(format!("begin[{} {}t]", e["caller"].as_str().unwrap_or(""), e["threads"])),
+            "end" => json!(format!("end:{}", e["res"].as_str().unwrap_or(""))),
+            _ => json!(ev),
+        }
+    }
+
+    /// TLC behaviours of MCParSeq (EmitRun): the finish order is forced; before every finish the
+    /// set of leaves inside `run` is compared with the model's.
+    fn replay(a: &Args) {
+        let inp = a.get("in").expect("--in");
+        let out = a.get("out").expect("--out");
+        let seed: u64 = a.num("seed", 1);
+        let max: usize = a.num("max", 1_000_000);
+        let keep: usize = a.num("keep-matching", 300);
+        let tm = timing(a);
+        let mut rng = StdRng::seed_from_u64(seed);
+        let pools = Pools::new();
+        let mut w = BufWriter::new(File::create(out).unwrap());
+        let mut all = replay_lines(inp);
+        let total = all.len();
+        if total > max {
+            all.shuffle(&mut rng);
+            all.truncate(max);
+        }
+        let p_keep = (keep as f64 / all.len().max(1) as f64).min(1.0);
+        let mut tot = Totals::default();
+        let (mut matched, mut deviated, mut written) = (0usize, 0usize, 0usize);
+        let mut samples = Vec::new();
+        let mut dev_samples = Vec::new();
+        for (bi, b) in all.iter().enumerate() {
+            let mut spec: TreeSpec = serde_json::from_value(b["tree"].clone()).expect("tree");
+            // real borrows: every leaf writes a cell of its own and reads a common one
+            let had_acc = spec.0.iter().any(|n| !n.r.is_empty() || !n.w.is_empty());
+            if !had_acc {
+                for l in spec.leaves() {
+                    spec.0[l - 1].w = vec![l as u32];
+                    spec.0[l - 1].r = vec![200];
+                }
+            }
+            let hist: Vec<(usize, Vec<usize>)> = b["hist"]
+                .as_array()
+                .unwrap()
+                .iter()
+                .map(|h| (h["f"].as_u64().unwrap() as usize, h["run"].as_array().unwrap().iter().map(|x| x.as_u64().unwrap() as usize).collect()))
+                .collect();
+            let width = hist.iter().map(|h| h.1.len()).max().unwrap_or(1);
+            // mostly pools that can realise the schedule, sometimes smaller ones (deviation expected)
+            let threads = if rng.gen_bool(0.85) { rng.gen_range(width.min(8)..=8) } else { rng.gen_range(1..=8) };
+            let caller = pick_caller(&mut rng);
+            let ctx = PCtx::new();
+            let mut evs = vec![json!({"ev":"reset","run":bi + 1,"mode":"dyn","debug":cfg!(debug_assertions),"tree":spec})];
+            tot.trees += 1;
+            let Some(root) = build_logged(&spec, &ctx, &mut evs) else {
+                // cannot happen for conflict-free trees; the trace says what did
+                tot.with_panics += 1;
+                deviated += 1;
+                write_events(&mut w, &evs);
+                continue;
+            };
+            tot.built += 1;
+            let st = drive(root, &spec, &ctx, &pools, threads, caller, 1, vec![Sched::Forced(hist.clone())], &tm, &mut evs, &mut tot);
+            let st = &st[0];
+            let finishes: Vec<usize> = evs.iter().filter(|e| e["ev"] == "finish").map(|e| e["s"].as_u64().unwrap() as usize).collect();
+            let same_order = finishes == hist.iter().map(|h| h.0).collect::<Vec<_>>();
+            let ok = st.result_ok && !st.deviated && st.runsets_equal && same_order;
+            if ok {
+                matched += 1;
+                if samples.len() < 2 {
+                    samples.push(json!({"tree": b["tree"], "forced_finish_order": finishes, "threads": threads, "caller": caller.name()}));
+                }
+                if written < keep && rng.gen_bool(p_keep) {
+                    written += 1;
+                    tot.events += evs.len();
+                    write_events(&mut w, &evs);
+                }
+            } else {
+                deviated += 1;
+                if dev_samples.len() < 3 {
+                    dev_samples.push(json!({"tree": b["tree"], "hist": b["hist"], "threads": threads, "caller": caller.name(),
+                        "observed": evs.iter().filter(|e| e["ev"] == "fetch" || e["ev"] == "finish").map(brief).collect::<Vec<_>>()}));
+                }
+                tot.events += evs.len();
+                write_events(&mut w, &evs);
+            }
+        }
+        w.flush().unwrap();
+        let mut j = tot.json();
+        j["behaviours_emitted"] = json!(total);
+        j["behaviours"] = json!(all.len());
+        j["matched"] = json!(matched);
+        j["not_followed"] = json!(deviated);
+        j["validated_sample"] = json!(written);
+        j["samples"] = json!(samples);
+        j["deviation_samples"] = json!(dev_samples);
+        println!("{}", j);
+    }
+
+    /// TLC-enumerated trees with access declarations (EmitBuild): construction outcome and the
+    /// root's reads()/writes() compared with the model's.
+    fn build(a: &Args) {
+        let inp = a.get("in").expect("--in");
+        let out = a.get("out").expect("--out");
+        let seed: u64 = a.num("seed", 1);
+        let keep: usize = a.num("keep-matching", 300);
+        let mut rng = StdRng::seed_from_u64(seed);
+        let mut w = BufWriter::new(File::create(out).unwrap());
+        let all = replay_lines(inp);
+        let p_keep = (keep as f64 / all.len().max(1) as f64).min(1.0);
+        let (mut matched, mut mismatch, mut written, mut panics, mut events) = (0usize, 0usize, 0usize, 0usize, 0usize);
+        let mut samples = Vec::new();
+        let mut mis_samples = Vec::new();
+        for (bi, b) in all.iter().enumerate() {
+            let spec: TreeSpec = serde_json::from_value(b["tree"].clone()).expect("tree");
+            let ctx = PCtx::new();
+            let mut evs = vec![json!({"ev":"reset","run":bi + 1,"mode":"dyn","debug":cfg!(debug_assertions),"tree":spec})];
+            let root = build_logged(&spec, &ctx, &mut evs);
+            let model_ready = b["phase"] == "ready";
+            let ok = match &root {
+                None => {
+                    panics += 1;
+                    !model_ready
+                }
+                Some(r) => {
+                    let (rr, ww) = node_acc(r);
+                    model_ready && json!(rr) == b["reads"] && json!(ww) == b["writes"]
+                }
+            };
+            if ok {
+                matched += 1;
+                if samples.len() < 2 && root.is_none() {
+                    samples.push(json!({"tree": b["tree"], "model": b["phase"], "real": evs.iter().skip(1).map(brief).collect::<Vec<_>>()}));
+                }
+                if written < keep && rng.gen_bool(p_keep) {
+                    written += 1;
+                    events += evs.len();
+                    write_events(&mut w, &evs);
+                }
+            } else {
+                mismatch += 1;
+                if mis_samples.len() < 3 {
+                    mis_samples.push(json!({"tree": b["tree"], "model": {"phase": b["phase"], "reads": b["reads"], "writes": b["writes"]},
+                        "real": evs.iter().skip(1).collect::<Vec<_>>()}));
+                }
+                events += evs.len();
+                write_events(&mut w, &evs);
+            }
+        }
+        w.flush().unwrap();
+        println!(
+            "{}",
+            json!({"behaviours": all.len(), "matched": matched, "mismatch": mismatch, "with_panics": panics,
+                   "validated_sample": written, "events": events, "samples": samples, "mismatch_samples": mis_samples})
+        );
+    }
+
+    /// Trees whose shape is a compile-time type built by the real `par!` / `seq!` macros.
+    fn zoo(a: &Args) {
+        let out = a.get("out").expect("--out");
+        let seed: u64 = a.num("seed", 1);
+        let variants: usize = a.num("variants", 2);
+        let tm = timing(a);
+        let mut rng = StdRng::seed_from_u64(seed);
+        let pools = Pools::new();
+        let mut w = BufWriter::new(File::create(out).unwrap());
+        let mut tot = Totals::default();
+        let mut samples = Vec::new();
+        let mut run = 0usize;
+        for (desc, ctor) in ZOO.iter() {
+            let shape: Vec<NodeSpec> = serde_json::from_str(desc).expect("zoo description");
+            for _ in 0..variants {
+                run += 1;
+                let mut spec = TreeSpec(shape.clone());
+                let cfg = GenCfg { max_depth: 0, max_fan: 0, max_leaves: 0, n_res: rng.gen_range(1..=8), p_conflict: a.num("pconflict", 0.2) };
+                assign_access(&mut rng, &mut spec, &cfg);
+                let ctx = PCtx::new();
+                let mut evs = vec![json!({"ev":"reset","run":run,"mode":"zoo","debug":cfg!(debug_assertions),"tree":spec})];
+                tot.trees += 1;
+                let mut made = Vec::new();
+                let built = catch_unwind(AssertUnwindSafe(|| {
+                    let mut mk = |n: usize| -> PLeaf {
+                        made.push(n);
+                        mk_leaf(&spec, n, &ctx)
+                    };
+                    ctor(&mut mk)
+                }));
+                match built {
+                    Err(_) => {
+                        tot.with_panics += 1;
+                        evs.push(json!({"ev":"built","out":"panic","made":made}));
+                    }
+                    Ok(root) => {
+                        tot.built += 1;
+                        evs.push(json!({"ev":"built","out":"ok","made":made}));
+                        let (r, wv) = node_acc(&root);
+                        evs.push(json!({"ev":"acc","n":1,"r":r,"w":wv}));
+                        let threads = rng.gen_range(1..=8);
+                        let caller = pick_caller(&mut rng);
+                        let mut r2 = StdRng::seed_from_u64(rng.gen());
+                        drive(root, &spec, &ctx, &pools, threads, caller, 1, vec![Sched::Random(&mut r2)], &tm, &mut evs, &mut tot);
+                    }
+                }
+                if samples.len() < 2 && spec.0.len() <= 10 {
+                    samples.push(json!({"macro_tree": spec, "events": evs.iter().skip(1).map(brief).collect::<Vec<_>>()}));
+                }
+                tot.events += evs.len();
+                write_events(&mut w, &evs);
+            }
+        }
+        w.flush().unwrap();
+        let mut j = tot.json();
+        j["zoo_types"] = json!(ZOO.len());
+        j["samples"] = json!(samples);
+        println!("{}", j);
+    }
 }
